@@ -495,6 +495,7 @@ fn whole_inputs_and_reentrant_functions() -> Stats {
     st
 }
 
+/// (round 12: plus a used context overwritten by `clone_from`.)
 /// Context configurations beyond variables: the builtin switch (on / off), a user function shadowing a
 /// builtin, x bound or not — each constructed twice the same way and also cloned, against programs that
 /// call builtins, user functions and unknown functions. The shared form on the original must equal the
@@ -507,6 +508,7 @@ fn configured_contexts() -> Stats {
         "max(x, 7)", "min(1, 2)", "len(\"ab\")", "str::from(x)", "math::sqrt(4)", "if(true, 1, 2)", "typeof(1)", "x + 1", "floor(2.5)",
         "contains((1, 2), 1)", "bitand(3, 1)", "max(x, 7) + len(\"a\")", "g(1)", "u(max(1, 2))", "max 1", "(max(1, 2), u(3))", "1 + 1", "str::to_uppercase(\"a\")",
         "math::abs(-1)", "round(1.5)", "max(u(1), u(2))", "u(1); max(1, 2)", "max(1, 2); u(1)", "1 / 0", "max()", "max(true, 1)",
+        "stale", "stale + 1", "u(stale)", "g(x)", "(x, stale)",
     ];
     for disabled in [false, true] {
         for shadow in [false, true] {
@@ -529,20 +531,33 @@ fn configured_contexts() -> Stats {
                     let mut twin = build();
                     let mut cl = c.clone();
                     let mut cl2 = c.clone().clone();
+                    // a used context (other variables, `x` of another type, other functions under the same and under
+                    // other names, the opposite switch) overwritten by `clone_from`: also "a context in the same state"
+                    let mut cf: HCtx = HashMapContext::new();
+                    cf.set_value("stale".into(), Value::Int(1)).unwrap();
+                    cf.set_value("x".into(), Value::String("stale".into())).unwrap();
+                    cf.set_function("u".into(), Function::new(|_| Ok(Value::Int(-9)))).unwrap();
+                    cf.set_function("g".into(), Function::new(|_| Ok(Value::Int(-8)))).unwrap();
+                    if !shadow {
+                        cf.set_function("max".into(), Function::new(|_| Ok(Value::Int(-7)))).unwrap();
+                    }
+                    cf.set_builtin_functions_disabled(!disabled).unwrap();
+                    cf.clone_from(&c);
                     let before = observe_vars(&c);
                     let fmt = |r: Result<ERes, PanicInfo>| r.map(|r| res_key(&r)).unwrap_or_else(|p| format!("panic at {}: {}", p.location, p.message));
                     let a = fmt(guarded(|| evalexpr::eval_with_context(src, &c)));
                     let b = fmt(guarded(|| evalexpr::eval_with_context_mut(src, &mut twin)));
                     let d = fmt(guarded(|| evalexpr::eval_with_context_mut(src, &mut cl)));
                     let e = fmt(guarded(|| evalexpr::eval_with_context_mut(src, &mut cl2)));
+                    let f = fmt(guarded(|| evalexpr::eval_with_context_mut(src, &mut cf)));
                     let t = fmt(guarded(|| build_operator_tree::<DefaultNumericTypes>(src).and_then(|t| t.eval_with_context(&c))));
-                    st.evaluations += 5;
+                    st.evaluations += 6;
                     st.count("configured-context-cases");
                     let mut bad: Option<(String, String)> = None;
-                    if a != b || a != d || a != e || a != t {
-                        bad = Some((format!("eval_with_context = {}", a), format!("eval_with_context_mut on a context constructed the same way = {}, on a clone = {}, on a clone of a clone = {}, tree level shared = {}", b, d, e, t)));
+                    if a != b || a != d || a != e || a != t || a != f {
+                        bad = Some((format!("eval_with_context = {}", a), format!("eval_with_context_mut on a context constructed the same way = {}, on a clone = {}, on a clone of a clone = {}, on a used context overwritten by clone_from = {}, tree level shared = {}", b, d, e, f, t)));
                     }
-                    for (n, x) in [("original", &c), ("twin", &twin), ("clone", &cl), ("clone of clone", &cl2)] {
+                    for (n, x) in [("original", &c), ("twin", &twin), ("clone", &cl), ("clone of clone", &cl2), ("used context overwritten by clone_from", &cf)] {
                         if bad.is_none() && (x.are_builtin_functions_disabled() != disabled || observe_vars(x) != before) {
                             bad = Some((format!("builtins disabled = {}, variables {:?}", disabled, before), format!("{}: builtins disabled = {}, variables {:?}", n, x.are_builtin_functions_disabled(), observe_vars(x))));
                         }
@@ -643,7 +658,7 @@ pub fn run(cfg: &Cfg) -> Report {
     Report {
         property: ID,
         level: "model_checking",
-        rule: format!("every program with <= {n} operator nodes of the C08 alphabet (assignments and op-assigns at every position, recording and failing calls, failing atoms) x 3 initial HashMapContext populations; per (program, context): eval_with_context on the tree and on the string (shared context), eval_with_context_mut on a clone, eval_with_context_mut on a harness context with the default set_value, and for the empty population EmptyContext and EmptyContextWithBuiltinFunctions; plus 11 x 9 x 6 sources `<lhs> <assignment operator> <rhs>` whose left operand is not a bare identifier (literal, group, sum, tuple, call, failing expression), evaluated on a shared context; plus 8 context configurations (builtin switch on / off x a user function shadowing `max` or not x `x` bound or not) x 26 assignment-free sources calling builtins, user functions and unknown functions: shared form on the original = mutable form on a context constructed the same way = on a clone = on a clone of a clone, switch and variables unchanged everywhere, unshadowed builtins unknown with the switch off; in the program enumeration the mutable run is also repeated on a second context constructed the same way and must agree with the clone's run; plus scaling families (chains and tuples of n elements with an assignment at every position, n in 1..20 and up to 129 / 1..40 and up to 400); oracle: reference interpreter in immutable / mutable / no-storage mode, direct differential between the two forms for assignment-free programs, context observation before/after. States = (program, context) pairs, transitions = evaluations. Non-trivial = assignment-free programs (differential) and programs ending in ContextNotMutable; each pair is enumerated once"),
+        rule: format!("every program with <= {n} operator nodes of the C08 alphabet (assignments and op-assigns at every position, recording and failing calls, failing atoms) x 3 initial HashMapContext populations; per (program, context): eval_with_context on the tree and on the string (shared context), eval_with_context_mut on a clone, eval_with_context_mut on a harness context with the default set_value, and for the empty population EmptyContext and EmptyContextWithBuiltinFunctions; plus 11 x 9 x 6 sources `<lhs> <assignment operator> <rhs>` whose left operand is not a bare identifier (literal, group, sum, tuple, call, failing expression), evaluated on a shared context; plus 8 context configurations (builtin switch on / off x a user function shadowing `max` or not x `x` bound or not) x 31 assignment-free sources calling builtins, user functions and unknown functions and reading bound and unbound variables: shared form on the original = mutable form on a context constructed the same way = on a clone = on a clone of a clone = on a used context (other variables, functions and switch) overwritten by clone_from, switch and variables unchanged everywhere, unshadowed builtins unknown with the switch off; in the program enumeration the mutable run is also repeated on a second context constructed the same way and must agree with the clone's run; plus scaling families (chains and tuples of n elements with an assignment at every position, n in 1..20 and up to 129 / 1..40 and up to 400); oracle: reference interpreter in immutable / mutable / no-storage mode, direct differential between the two forms for assignment-free programs, context observation before/after. States = (program, context) pairs, transitions = evaluations. Non-trivial = assignment-free programs (differential) and programs ending in ContextNotMutable; each pair is enumerated once"),
         nontrivial_set: "counter:nontrivial-distinct",
         exhaustive: true,
         bound_completed: format!("programs of {n} operator nodes"),
